@@ -396,8 +396,10 @@ impl PartialOrd for Number {
                 Number::Rational(rhs) => {
                     if lhs.to_i32().is_some() {
                         Rational32::from_integer(*lhs as i32).partial_cmp(rhs)
-                    } else {
+                    } else if *lhs > 0 {
                         Some(Ordering::Greater)
+                    } else {
+                        Some(Ordering::Less)
                     }
                 }
             },
@@ -407,7 +409,8 @@ impl PartialOrd for Number {
                 Number::Float(rhs) => (**lhs).to_f64().unwrap().partial_cmp(rhs),
                 Number::Rational(rhs) => match lhs.to_i32() {
                     Some(lhs) => Rational32::from_integer(lhs).partial_cmp(rhs),
-                    None => Some(Ordering::Greater),
+                    None if lhs.is_positive() => Some(Ordering::Greater),
+                    None => Some(Ordering::Less),
                 },
             },
             Number::Float(lhs) => match rhs {
@@ -420,14 +423,17 @@ impl PartialOrd for Number {
                 Number::Fixnum(rhs) => {
                     if rhs.to_i32().is_some() {
                         lhs.partial_cmp(&Rational32::from_integer(*rhs as i32))
-                    } else {
+                    } else if *rhs > 0 {
                         Some(Ordering::Less)
+                    } else {
+                        Some(Ordering::Greater)
                     }
                 }
                 Number::Float(rhs) => lhs.to_f64().unwrap().partial_cmp(rhs),
                 Number::BigInt(rhs) => match rhs.to_i32() {
                     Some(rhs) => lhs.partial_cmp(&Rational32::from_integer(rhs)),
-                    None => Some(Ordering::Less),
+                    None if rhs.is_positive() => Some(Ordering::Less),
+                    None => Some(Ordering::Greater),
                 },
                 Number::Rational(rhs) => lhs.partial_cmp(rhs),
             },
